@@ -55,6 +55,15 @@ def run_e2e(ctx, nfiles, nproc):
         for mode in MODES:
             fl = [a.format(r=rng.randint(1, text.count("\n") + 1), t="go", c=rng.choice(["Base", "Aa", "Integer"])) for a in mode]
             jobs.append((name, fl))
+    # conditionals that narrow several union variables at once (their else branch is computed by a loop over a map of variables)
+    from .. import narrow
+    for i in range(max(6, nfiles // 3)):
+        g = narrow.Gen(rng)
+        text = g.program()
+        name = "nar%d.rb" % i
+        open(os.path.join(wd, name), "w").write(text)
+        jobs.append((name, []))
+        jobs.append((name, ["-i"]))
     rng.shuffle(jobs)
     envs = [{"GOMAXPROCS": "1"}, {"GOMAXPROCS": "2"}, {"GOMAXPROCS": "16"}, {"GOMAXPROCS": "4", "GOGC": "1"},
             {"GOMAXPROCS": "8", "GOGC": "off"}, {"GOMAXPROCS": "3"}, {}, {"GOMAXPROCS": "5", "GOGC": "10"}]
